@@ -48,4 +48,8 @@ VARIANTS = [
     V("segment-start-from-offset-samples", "src/soundevent/io/crowsetta/segment.py", "        start_time = segment.onset_sample / samplerate", "        start_time = segment.offset_sample / samplerate", "R10.8"),
     V("segment-missing-onset-test-on-offset", "src/soundevent/io/crowsetta/segment.py", "        if segment.onset_sample is None:", "        if segment.offset_sample is None:", "R10.8", occurrence=0),
     V("N-box-fields-unpacked-together", "src/soundevent/io/crowsetta/bbox.py", "    start_time = bbox.onset\n    end_time = bbox.offset\n", "    start_time, end_time = bbox.onset, bbox.offset\n", None),
+    V("sequence-annotations-never-collected", "src/soundevent/io/crowsetta/annotation.py", "        sound_event_annotations.extend(time_interval_annotations)\n", "", "R10.5"),
+    V("N-box-annotations-by-comprehension-then-grown", "src/soundevent/io/crowsetta/annotation.py", "    sound_event_annotations = []\n    sequence_annotations = []\n", "    sequence_annotations = []\n", None,
+      also=(("src/soundevent/io/crowsetta/annotation.py", "    for box in crowsetta_bboxes:\n        sound_event_annotations.append(\n            bbox_to_annotation(\n                box,\n                recording=recording,\n                adjust_time_expansion=adjust_time_expansion,\n                created_by=created_by,\n                **kwargs,\n            )\n        )\n",
+              "    sound_event_annotations = [\n        bbox_to_annotation(\n            box,\n            recording=recording,\n            adjust_time_expansion=adjust_time_expansion,\n            created_by=created_by,\n            **kwargs,\n        )\n        for box in crowsetta_bboxes\n    ]\n"),)),
 ]
